@@ -7,6 +7,7 @@ package main
 // The property: they are exactly the strings mrp was given.
 
 import (
+	"bytes"
 	"encoding/json"
 	"fmt"
 	"os"
@@ -76,6 +77,9 @@ func c18Arg(c *Ctx) string {
 	if c.Rng.Intn(8) == 0 {
 		return "x" + c18Tokens[c.Rng.Intn(len(c18Tokens))] + "y"
 	}
+	if c.Rng.Intn(10) == 0 {
+		return c18GenLong(c)
+	}
 	return c18GenValid(c)
 }
 
@@ -117,7 +121,13 @@ func runC18Scripts(c *Ctx) {
 	for i := 0; i < n; i++ {
 		t := templates[i%len(templates)]
 		root := filepath.Join(c.Scratch, fmt.Sprintf("js%d", i))
-		work := filepath.Join(root, c18PathComponent(c), "files")
+		metaComp := c18PathComponent(c)
+		// pipestance directories whose name holds a newline: often for templates that keep the
+		// path off the `#` lines (there it must be harmless), now and then for the others (F31)
+		if nl := c.Rng.Intn(8); nl == 0 || (nl < 4 && !directiveHasPath(t.text)) {
+			metaComp = strings.ReplaceAll(c18PathComponent(c), "\n", "") + "\n" + strings.ReplaceAll(c18PathComponent(c), "\n", "")
+		}
+		work := filepath.Join(root, metaComp, "files")
 		meta := filepath.Dir(work)
 		if err := os.MkdirAll(work, 0o755); err != nil {
 			continue // e.g. name too long for the file system
@@ -161,7 +171,10 @@ func runC18Scripts(c *Ctx) {
 			cmd.Dir = root
 			cmd.Env = []string{"PATH=/nonexistent", "HOME=/nonexistent", "VERIF_REC_OUT=" + outp,
 				"VERIF_REC_KEYS=" + strings.Join(keys, ",")}
-			stdout, _ := cmd.Output()
+			var outBuf, errBuf bytes.Buffer
+			cmd.Stdout, cmd.Stderr = &outBuf, &errBuf
+			runErr := cmd.Run()
+			stdout := outBuf.Bytes()
 			var got recordOut
 			b, err := os.ReadFile(outp)
 			if err != nil && strings.Contains(t.text, "&") {
@@ -220,6 +233,62 @@ func runC18Scripts(c *Ctx) {
 						What:  "the shell did not reproduce an environment value from the job script",
 						Input: input, Impl: fmt.Sprintf("%q", got.Env[k]), Expect: fmt.Sprintf("%q", v)})
 				}
+			}
+			// ... and nothing else happened: exit status 0, nothing on stderr, on stdout only the
+			// pid the fake_remote template prints, no file or directory that the job did not ask for
+			var stray []string
+			background := strings.Contains(t.text, "& echo $!")
+			if runErr != nil {
+				stray = append(stray, "exit status: "+runErr.Error())
+			}
+			if errBuf.Len() > 0 {
+				stray = append(stray, "stderr: "+errBuf.String())
+			}
+			so := strings.TrimSpace(string(stdout))
+			if background {
+				if _, err := strconv.Atoi(so); err != nil {
+					stray = append(stray, "stdout is not one pid: "+string(stdout))
+				}
+			} else if so != "" {
+				stray = append(stray, "stdout: "+string(stdout))
+			}
+			rel := func(p string) string { // first path component below root
+				p = strings.TrimPrefix(p, root+"/")
+				if i := strings.IndexByte(p, '/'); i >= 0 {
+					p = p[:i]
+				}
+				return p
+			}
+			allowed := map[string]bool{"job.sh": true, "rec.json": true, rel(work): true, rel(prog): true}
+			if ents, err := os.ReadDir(root); err == nil {
+				for _, e := range ents {
+					if !allowed[e.Name()] {
+						stray = append(stray, "unexpected entry in the job's root directory: "+fmt.Sprintf("%q", e.Name()))
+					}
+				}
+			}
+			if ents, err := os.ReadDir(meta); err == nil {
+				for _, e := range ents {
+					n := e.Name()
+					if n == "files" || (background && (n == "_stdout" || n == "_stderr")) {
+						if n != "files" {
+							if b, _ := os.ReadFile(filepath.Join(meta, n)); len(b) > 0 {
+								stray = append(stray, "the job wrote to "+n+": "+string(b))
+							}
+						}
+						continue
+					}
+					stray = append(stray, "unexpected entry in the metadata directory: "+fmt.Sprintf("%q", n))
+				}
+			}
+			if len(stray) > 0 {
+				key, what := "C18:jobscript:side-effects:"+t.name, "executing the rendered job script did more than run the command with its arguments and environment"
+				if strings.Contains(meta, "\n") && directiveHasPath(t.text) {
+					key = "C18:jobscript:newline-in-directive-path"
+					what = "a newline in the pipestance path ends the scheduler-directive comment line that carries the stdout/stderr path; the shell executes the rest of the path as code"
+				}
+				r.violate(Violation{Kind: "property", Key: key, What: what, Input: input, Impl: stray,
+					Expect: "exit status 0, empty stderr, no output but the pid of a background job, no stray files"})
 			}
 		}
 		if len(r.Samples) < 10 && i < 2 {
